@@ -298,9 +298,15 @@ void run_script(std::map<std::string, std::string> const& kv)
             // evidence: iterations in which >= 2 slots produced secondaries / looping counters
             if (state.counters().num_secondaries >= 2)
             {
-                size_type producing = 0;
-                for (auto t : range(TrackSlotId{state.size()}))
-                    producing += state.ref().init.secondary_counts[t] > 0;
+                // after the step `secondary_counts` holds the exclusive scan of the counts
+                size_type producing = 0, n = state.size();
+                auto const& sc = state.ref().init.secondary_counts;
+                for (size_type t = 0; t < n; ++t)
+                {
+                    size_type next = t + 1 < n ? sc[TrackSlotId{t + 1}]
+                                               : state.counters().num_secondaries;
+                    producing += next > sc[TrackSlotId{t}];
+                }
                 multi_sec += producing >= 2;
             }
             if (!state.ref().sim.num_looping_steps.empty())
